@@ -283,30 +283,55 @@ func through(rt *rapid.T, c *ksCase, what string, h *keyset.Handle, r route) *ke
 	}
 	var out *keyset.Handle
 	var err error
+	// one writer object serves every write of this route; half of the time it has already written
+	// another document (the same handle, to a destination that was emptied afterwards): a writer is
+	// "any writer", also one that has been used before (added after seeded change C12g, a scratch
+	// buffer kept between writes of a JSONWriter)
+	w := tr.writer()
+	if r.format != "mem" && rapid.Bool().Draw(rt, "writer_used_before") {
+		var first error
+		switch r.mode {
+		case "cleartext":
+			first = insecurecleartextkeyset.Write(h, w)
+		case "encrypted":
+			first = h.Write(w, r.kek)
+		case "encrypted-ad":
+			first = h.WriteWithAssociatedData(w, r.kek, []byte("an earlier write"))
+		case "encrypted-ctx":
+			first = h.WriteWithContext(context.Background(), w, tk.CtxAEAD(r.kek), []byte("an earlier write"))
+		case "nosecrets":
+			first = h.WriteWithNoSecrets(w)
+		}
+		if first != nil {
+			fail("an earlier write with the same writer object", first)
+		}
+		tr.buf.Reset()
+		evid.Add("writer_reused", 1)
+	}
 	switch r.mode {
 	case "cleartext":
-		if err = insecurecleartextkeyset.Write(h, tr.writer()); err != nil {
+		if err = insecurecleartextkeyset.Write(h, w); err != nil {
 			fail("insecurecleartextkeyset.Write", err)
 		}
 		if out, err = insecurecleartextkeyset.Read(tr.reader()); err != nil {
 			fail("insecurecleartextkeyset.Read", err)
 		}
 	case "encrypted":
-		if err = h.Write(tr.writer(), r.kek); err != nil {
+		if err = h.Write(w, r.kek); err != nil {
 			fail("Handle.Write", err)
 		}
 		if out, err = keyset.Read(tr.reader(), r.kek); err != nil {
 			fail("keyset.Read", err)
 		}
 	case "encrypted-ad":
-		if err = h.WriteWithAssociatedData(tr.writer(), r.kek, r.ad); err != nil {
+		if err = h.WriteWithAssociatedData(w, r.kek, r.ad); err != nil {
 			fail("Handle.WriteWithAssociatedData", err)
 		}
 		if out, err = keyset.ReadWithAssociatedData(tr.reader(), r.kek, r.ad); err != nil {
 			fail("keyset.ReadWithAssociatedData", err)
 		}
 	case "encrypted-ctx":
-		if err = h.WriteWithContext(context.Background(), tr.writer(), tk.CtxAEAD(r.kek), r.ad); err != nil {
+		if err = h.WriteWithContext(context.Background(), w, tk.CtxAEAD(r.kek), r.ad); err != nil {
 			fail("Handle.WriteWithContext", err)
 		}
 		if out, err = keyset.ReadWithContext(context.Background(), tr.reader(), tk.CtxAEAD(r.kek), r.ad); err != nil {
@@ -317,7 +342,7 @@ func through(rt *rapid.T, c *ksCase, what string, h *keyset.Handle, r route) *ke
 			fail("keyset.ReadWithAssociatedData of a keyset written by WriteWithContext", err)
 		}
 	case "nosecrets":
-		if err = h.WriteWithNoSecrets(tr.writer()); err != nil {
+		if err = h.WriteWithNoSecrets(w); err != nil {
 			fail("Handle.WriteWithNoSecrets", err)
 		}
 		if out, err = keyset.ReadWithNoSecrets(tr.reader()); err != nil {
